@@ -196,28 +196,27 @@ func guardObligation(c *core.Ctx, rule string, pi *procInfo, fn *ssa.Function, c
 			fmt.Sprintf("processor data is reachable without passing the !isHalted() edge (%s); halted syncer would serve data", core.PathStr(f)))
 		return true
 	}
-	// (2) every return reachable from the halted edge returns ErrInconsistentState
+	// (2) every return reachable without having passed the not-halted edge (the halted edge itself, and anything
+	// before the guard such as a cache hit) returns ErrInconsistentState
 	sx := core.NewSymx()
-	for _, e := range halted {
-		start := core.Point{B: e.B.Succs[e.Succ], I: 0}
-		bad := (&core.Walk{Target: func(i ssa.Instruction) bool {
-			r, ok := i.(*ssa.Return)
-			if !ok {
-				return false
-			}
-			if len(r.Results) == 0 {
-				return true
-			}
-			last := r.Results[len(r.Results)-1]
-			if !types.Identical(last.Type(), types.Universe.Lookup("error").Type()) {
-				return true
-			}
-			return sx.Of(last).String() != errInconsistent
-		}}).From(start, nil)
-		if bad != nil {
-			c.Violate(rule, construct, bad.Instr.Pos(), "on the isHalted() edge the function returns something other than sync.ErrInconsistentState")
+	_ = halted
+	bad := (&core.Walk{EdgeOK: core.Forbid(notHalted), Target: func(i ssa.Instruction) bool {
+		r, ok := i.(*ssa.Return)
+		if !ok || (fn.Recover != nil && r.Block() == fn.Recover) {
+			return false
+		}
+		if len(r.Results) == 0 {
 			return true
 		}
+		last := r.Results[len(r.Results)-1]
+		if !types.Identical(last.Type(), types.Universe.Lookup("error").Type()) {
+			return true
+		}
+		return sx.Of(last).String() != errInconsistent
+	}}).From(core.Entry(fn), nil)
+	if bad != nil {
+		c.Violate(rule, construct, bad.Instr.Pos(), "a return is reachable without passing the !isHalted() edge and does not return sync.ErrInconsistentState: a halted syncer would answer this query ("+core.PathStr(bad)+")")
+		return true
 	}
 	c.Hold(rule, construct, "every path to processor data passes !isHalted(); halted edge returns ErrInconsistentState")
 	return true
